@@ -18,7 +18,8 @@ for ctx.Err() == nil && err == nil {                              // pc top
 
 One step = one rendez-vous on a channel (`events`, `confCh`), one atomic access (`w.state`, `desc.Offset`), one
 call of the parser, or the end of a sleep. `stopOnEOF` (sync goroutine), `cancel` (the context) and `persist`
-(the `runPersistState` goroutine: periodic ticks and the final persist after cancel) interleave freely.
+(the `runPersistState` goroutine: periodic ticks) interleave freely; `finalPersist` is that goroutine's last
+`persistState()` after the cancel — since fix c6aad9a only once the worker has left its loop (`waitWg.Wait()`).
 Ghost fields (`start`, `confirmed`, `ends`, `readLog`, …) record history for the theorems; they do not
 influence the steps.
 -/
@@ -46,6 +47,9 @@ structure Cfg where
   /-- `true`: `w.state` is sampled before `NextRecord` (current code, after fix 91d80cf);
       `false`: it is read in the stop test after `sendOrSleep` (the code before the fix) -/
   sampleBefore : Bool
+  /-- `true`: the final persist of `runPersistState` runs after `waitWg.Wait()`, i.e. after the worker has left its
+      loop (current code, after fix c6aad9a); `false`: it runs as soon as the context is cancelled (before the fix) -/
+  finalAfterWorkers : Bool := true
 deriving DecidableEq, Repr
 
 structure S where
@@ -87,7 +91,8 @@ inductive L where
   | wake                   -- `utils.Sleep` returns
   | stopOnEOF              -- `syncWorkers` tells the worker to run until EOF
   | cancel                 -- the context is cancelled
-  | persist                -- `persistState()`: a periodic tick or the final one
+  | persist                -- `persistState()`: a periodic tick
+  | finalPersist           -- the final `persistState()` of `runPersistState` after the context was cancelled
 deriving DecidableEq, Repr
 
 def finish (s : S) (byEof : Bool) : S :=
@@ -103,6 +108,11 @@ def step (c : Cfg) (s : S) : L → Option S
   | .cancel => some { s with cancelled := true }
   | .persist =>
     some { s with persisted := s.offset, confAtPersist := confEnd s, persistInWindow := isSetting s.pc }
+  | .finalPersist =>
+    -- `for utils.Wait(ctx, ticker) {…}` has ended (cancelled); with the fix: `s.waitWg.Wait()` first
+    if s.cancelled && (!c.finalAfterWorkers || s.pc == .done) then
+      some { s with persisted := s.offset, confAtPersist := confEnd s, persistInWindow := isSetting s.pc }
+    else none
   | .step =>
     match s.pc with
     | .top =>
